@@ -130,7 +130,7 @@ def negated_flag(test, flags) -> bool:
     return False
 
 
-def mirrors_edge_list(st) -> str | None:
+def mirrors_edge_list(st, fnode=None) -> str | None:
     """`X = <concat>(X, X[:, [1, 0]] ...)`: the edge list X is extended by its
     column-swapped copy.  Returns X."""
     if not (isinstance(st, ast.Assign) and len(st.targets) == 1 and
@@ -138,7 +138,12 @@ def mirrors_edge_list(st) -> str | None:
         return None
     x = st.targets[0].id
     swapped = plain = False
-    for n in ast.walk(st.value):
+    value = st.value
+    if fnode is not None:
+        # the swapped copy may be bound to a local first
+        defs = {k: v for k, v in single_defs(fnode).items() if k != x}
+        value = inline_locals(fnode, st.value, defs=defs)
+    for n in ast.walk(value):
         if isinstance(n, ast.Subscript) and isinstance(n.value, ast.Name) and \
                 n.value.id == x and isinstance(n.slice, ast.Tuple) and \
                 len(n.slice.elts) == 2:
@@ -146,8 +151,8 @@ def mirrors_edge_list(st) -> str | None:
             r = ast.unparse(n.slice.elts[0]).replace(" ", "")
             if r == ":" and c in ("[1,0]", "::-1", "(1,0)"):
                 swapped = True
-    if isinstance(st.value, ast.Call):
-        for a in ast.walk(st.value):
+    if isinstance(value, ast.Call):
+        for a in ast.walk(value):
             if isinstance(a, ast.Call):
                 for arg in a.args:
                     els = arg.elts if isinstance(arg, (ast.Tuple, ast.List)) else [arg]
@@ -297,9 +302,17 @@ def inline_simple_helpers(fnode, resolve, depth=2):
         if h is None or call.keywords:
             return None
         params = [a.arg for a in h.args.args]
-        if params and params[0] in ("self", "cls") and len(params) == len(call.args) + 1:
-            params = params[1:]
-        if len(params) != len(call.args):
+        args = list(call.args)
+        is_static = any(ast.unparse(d) in ("staticmethod", "classmethod")
+                        for d in h.decorator_list)
+        if params and params[0] in ("self", "cls") and len(params) == len(args) + 1:
+            if params[0] == "self" and not is_static and \
+                    isinstance(call.func, ast.Attribute):
+                # obj.H(a, b): the receiver is the helper's self
+                args = [call.func.value] + args
+            else:
+                params = params[1:]
+        if len(params) != len(args):
             return None
         body = [b for b in h.body if not (isinstance(b, ast.Expr) and
                                           isinstance(b.value, ast.Constant))]
@@ -307,7 +320,7 @@ def inline_simple_helpers(fnode, resolve, depth=2):
         k = counter[0]
         locs = {n.id for b in body for n in ast.walk(b)
                 if isinstance(n, ast.Name) and isinstance(n.ctx, ast.Store)}
-        mapping = {p_: a for p_, a in zip(params, call.args)}
+        mapping = {p_: a for p_, a in zip(params, args)}
         for l in locs:
             if l not in mapping:
                 mapping[l] = ast.Name(id=f"_h{k}_{l}", ctx=ast.Load())
@@ -354,6 +367,34 @@ def inline_simple_helpers(fnode, resolve, depth=2):
             out.append(ast.Assign(targets=[copy.deepcopy(st.targets[0])],
                                   value=subst(body[-1].value, mapping)))
             return fixloc(out, st.lineno)
+        if isinstance(st, ast.Return) and isinstance(st.value, ast.Call):
+            # return H(args): the helper's statements, then return its result
+            pr = prepare(st.value)
+            if pr is None:
+                return None
+            body, mapping = pr
+            rets = [n for b in body for n in ast.walk(b) if isinstance(n, ast.Return)]
+            if not (len(rets) == 1 and body and isinstance(body[-1], ast.Return)
+                    and body[-1].value is not None):
+                return None
+            out = [subst(b, mapping) for b in body[:-1]]
+            out.append(ast.Return(value=subst(body[-1].value, mapping)))
+            return fixloc(out, st.lineno)
+        if isinstance(st, ast.Expr) and isinstance(st.value, ast.Call):
+            # a helper called for its effects: H(args) / obj.H(args)
+            pr = prepare(st.value)
+            if pr is None:
+                return None
+            body, mapping = pr
+            if any(isinstance(n, ast.Return) and n.value is not None
+                   for b in body for n in ast.walk(b)) or \
+                    any(isinstance(n, (ast.Yield, ast.YieldFrom))
+                        for b in body for n in ast.walk(b)):
+                return None
+            if any(isinstance(n, ast.Return) for b in body[:-1] for n in ast.walk(b)):
+                return None          # early returns are not modelled
+            body = [b for b in body if not isinstance(b, ast.Return)]
+            return fixloc([subst(b, mapping) for b in body], st.lineno)
         if isinstance(st, ast.For):
             pr = prepare(st.iter)
             if pr is None:
@@ -408,3 +449,58 @@ def inline_simple_helpers(fnode, resolve, depth=2):
     new = copy.copy(fnode)
     new.body = walk_block(fnode.body, depth)
     return new
+
+
+def is_bump_of(st, obj: str, cell: str) -> bool:
+    """`obj.cell += c`, `obj.cell = obj.cell + c` or
+    `setattr(obj, "cell", getattr(obj, "cell"[, d]) + c)` with c > 0."""
+    def pos(c):
+        return isinstance(c, ast.Constant) and isinstance(c.value, (int, float)) and \
+            not isinstance(c.value, bool) and c.value > 0
+
+    def reads(e):
+        if isinstance(e, ast.Attribute) and ast.unparse(e) == f"{obj}.{cell}":
+            return True
+        return isinstance(e, ast.Call) and isinstance(e.func, ast.Name) and \
+            e.func.id == "getattr" and len(e.args) >= 2 and \
+            ast.unparse(e.args[0]) == obj and isinstance(e.args[1], ast.Constant) and \
+            e.args[1].value == cell
+
+    def plus(v):
+        return isinstance(v, ast.BinOp) and isinstance(v.op, ast.Add) and (
+            (reads(v.left) and pos(v.right)) or (reads(v.right) and pos(v.left)))
+    if isinstance(st, ast.AugAssign) and isinstance(st.op, ast.Add) and \
+            ast.unparse(st.target) == f"{obj}.{cell}" and pos(st.value):
+        return True
+    if isinstance(st, ast.Assign) and len(st.targets) == 1 and \
+            ast.unparse(st.targets[0]) == f"{obj}.{cell}" and plus(st.value):
+        return True
+    if isinstance(st, ast.Expr) and isinstance(st.value, ast.Call) and \
+            isinstance(st.value.func, ast.Name) and st.value.func.id == "setattr" and \
+            len(st.value.args) == 3 and ast.unparse(st.value.args[0]) == obj and \
+            isinstance(st.value.args[1], ast.Constant) and \
+            st.value.args[1].value == cell and plus(st.value.args[2]):
+        return True
+    return False
+
+
+def private_closure(prog, C, roots):
+    """roots + the private helpers (self._x / cls._x / Class._x) they call,
+    transitively: the code a method is built of."""
+    out, work = [], list(roots)
+    while work:
+        f = work.pop()
+        if f in out:
+            continue
+        out.append(f)
+        sn = f.params[0] if f.params and f.kind != "static" else None
+        for n in ast.walk(f.node):
+            if isinstance(n, ast.Call) and isinstance(n.func, ast.Attribute) and \
+                    isinstance(n.func.value, ast.Name) and n.func.attr.startswith("_") \
+                    and not n.func.attr.startswith("__") and \
+                    (n.func.value.id == sn or n.func.value.id in ("self", "cls") or
+                     n.func.value.id in prog.classes):
+                g = prog.lookup(C, n.func.attr)
+                if g is not None and g not in out:
+                    work.append(g)
+    return out
